@@ -531,9 +531,19 @@ class bptk():
 
 
     def progress(self):
-        """Returns the progress of a simulation as float.
+        """Returns the progress of a simulation as float: the fraction of the span from the session's start time to its
+        stop time that lies before the next step (a value above 1.0 means that the stop time has been passed).
         """
-        return float(self.session_state["step"]) / float(self.session_state["stoptime"])
+        starttime = float(self.session_state["starttime"])
+        stoptime = float(self.session_state["stoptime"])
+        step = float(self.session_state["step"])
+
+        if stoptime == starttime:
+            # a session that consists of a single step
+            return 1.0 if step <= stoptime else 2.0
+
+        # measured from the start time: step/stoptime is undefined for a stop time of 0 and decreases for negative times
+        return (step - starttime) / (stoptime - starttime)
 
 
 
